@@ -7,7 +7,7 @@ from .. import runner, cmake_lexer, cmake_trace
 from ..modgen import Layout, render
 from ..genmod import Builder
 
-FIXED = '''set(v_un a.b -DX=1 "quoted arg" "esc \\" q" [[bracket]] [=[lvl ]] one]=] ${ref} (nested (parens) x))
+FIXED = r'''set(v_un a.b -DX=1 "quoted arg" "esc \" q" [[bracket]] [=[lvl ]] one]=] ${ref} (nested (parens) x))
 #[[[
 # documented function
 #]]
@@ -70,7 +70,7 @@ class Prop(BaseProp):
                    "skipped and counted", "error message text is not asserted",
                    "what happens to the other files of a directory run is not asserted"]
     HEADLINE = ["mutants_generated", "mutants_invalid_asserted", "mutants_valid_skipped", "rejected_as_required",
-                "cmake_crosschecks", "cli_runs", "directory_mode_runs", "stdout_mode_runs"]
+                "cmake_crosschecks", "cli_runs", "directory_mode_runs", "stdout_mode_runs", "runs_via_cminx_main"]
 
     NMOD = {"quick": 6, "thorough": 40}
 
@@ -93,8 +93,25 @@ class Prop(BaseProp):
         runner.cminx()
         self._plan = self.plan(self.tier)
 
-    def attempt(self, res, sb, text, kind, reason, wit_extra, idx, mode):
-        """Feeds one INVALID mutant to the real cminx.main; records a violation if it is accepted."""
+    def call(self, argv, sb, home, via_main):
+        """cminx.main(argv) -- or, for the bulk, cminx.document() with the Settings main would build from the packaged
+        defaults (main itself costs 20 ms of YAML loading per call; a sample of every fault kind still goes through it)."""
+        if via_main:
+            return runner.run_main(argv, cwd=sb, home=home)
+        m = runner.cminx()
+        out = argv[argv.index("-o") + 1] if "-o" in argv else None
+        st = runner.make_settings(input={"recursive": "-r" in argv}, output={"directory": out})
+        old = os.getcwd()
+        os.chdir(sb)
+        try:
+            return runner.guarded(m.document, argv[0], st)
+        finally:
+            os.chdir(old)
+            runner.reset_logging()
+
+    def attempt(self, res, sb, text, kind, reason, wit_extra, idx, mode, via_main=False):
+        """Feeds one INVALID mutant to the real code; records a violation if it is accepted."""
+        res.count("runs_via_cminx_main" if via_main else "runs_via_cminx_document")
         name = "faulty.cmake"
         out = os.path.join(sb, "out")
         home = os.path.join(sb, "home")
@@ -105,7 +122,7 @@ class Prop(BaseProp):
             src = os.path.join(sb, name)
             with open(src, "w", encoding="utf-8", newline="") as f:
                 f.write(text)
-            o = runner.run_main([src, "-o", out], cwd=sb, home=home)
+            o = self.call([src, "-o", out], sb, home, via_main)
             page = os.path.join(out, "faulty.rst")
         elif mode == "dir":
             d = os.path.join(sb, "proj")
@@ -116,14 +133,14 @@ class Prop(BaseProp):
             src = os.path.join(d, "sub", name)
             with open(src, "w", encoding="utf-8", newline="") as f:
                 f.write(text)
-            o = runner.run_main([d, "-r", "-o", out], cwd=sb, home=home)
+            o = self.call([d, "-r", "-o", out], sb, home, via_main)
             page = os.path.join(out, "sub", "faulty.rst")
             res.count("directory_mode_runs")
         else:
             src = os.path.join(sb, name)
             with open(src, "w", encoding="utf-8", newline="") as f:
                 f.write(text)
-            o = runner.run_main([src], cwd=sb, home=home)
+            o = self.call([src], sb, home, via_main)
             page = None
             res.count("stdout_mode_runs")
         failed = (o.exc is not None) or (o.exit_code not in (None, 0))
@@ -190,11 +207,12 @@ class Prop(BaseProp):
                 res.see("fault_kinds", kbase)
                 res.see("reference_reasons", reason)
                 wx = {"fault": kind, "position": p, "reference_reason": reason, "base_module": j}
-                self.attempt(res, sb, mt, kbase, reason, wx, idx, "single")
+                vm = (n + idx) % 6 == 0
+                self.attempt(res, sb, mt, kbase, reason, wx, idx, "single", via_main=vm)
                 if n % 5 == 0:
-                    self.attempt(res, sb, mt, kbase, reason, wx, idx, "dir")
+                    self.attempt(res, sb, mt, kbase, reason, wx, idx, "dir", via_main=vm)
                 if n % 5 == 1:
-                    self.attempt(res, sb, mt, kbase, reason, wx, idx, "stdout")
+                    self.attempt(res, sb, mt, kbase, reason, wx, idx, "stdout", via_main=vm)
                 if reason in PARSE_TIME and (n + idx) % 40 == 0:
                     src = os.path.join(sb, "x.cmake")
                     with open(src, "w", encoding="utf-8", newline="") as f:
